@@ -302,12 +302,12 @@ struct ThreadCtx {
 // decryption (which receive the same shared const keys) run concurrently too
 #define TAMPER() do { if (tamper && clen) T.out[(sd >> 8) % clen] ^= (uint8_t)(1u << (sd & 7)); } while (0)
 
-static const int NOPK = 27;
+static const int NOPK = 28;
 static const char *opk_name[NOPK] = {"hash", "hasha", "xof", "aead128", "aead128a", "aead80pq", "inc128", "siv128", "siv80pq", "isap128_shared",
                                      "isap128a_shared", "isap80pq_shared", "masked128_shared", "masked80pq_shared", "prf_hmac", "kmac_hkdf", "random", "prng",
                                      "cpp_aead", "cpp_isap_saved_key", "cpp_hash_xof", "cpp_siv_masked",
                                      "masked_key_toolkit", "copy_from_shared_reinit_hex_state", "prng_reseed_save_load", "adjacent_output_slices",
-                                     "prng_shared_const_storage"};
+                                     "prng_shared_const_storage", "adjacent_input_slices"};
 
 // the ISAP classes take (key, len), the others take (key)
 template <class E> static auto make_keyed(const uint8_t *k, size_t klen) -> decltype(E(k, klen)) { return E(k, klen); }
@@ -514,6 +514,12 @@ static uint64_t run_op(ThreadCtx &T, const Op &op)
             r += 9 * ascon_random_load_seed(&T.prng, &S.store); ascon_random_fetch(&T.prng, T.out, 32); ascon_random_free(&T.prng));
         memcpy(T.out + 32, &t_store_log, 8);
         clen = 40; break; }
+    case 27: { // inputs of different threads lie next to each other in memory (each thread fills its own 13-byte slice and
+               // has it encrypted by a masked AEAD under the shared masked key): a function may READ its own bytes only
+        uint8_t *mine = S.slices + 13 * (size_t)(T.id % 16);
+        LIB(memcpy(mine, m, 13); ascon128_masked_aead_encrypt(T.out, &clen, mine, 13, mine, 5, n, &S.mk128);
+            ascon80pq_masked_aead_encrypt(T.out + 32, &plen, mine, 11, nullptr, 0, n, &S.mk160));
+        clen = 32 + 27; plen = 0; break; }
     default: { // masked classes
         ++t_in_lib;
         switch (v % 3) {
